@@ -425,6 +425,43 @@ func genC20(e *emitter, r *rng, thorough bool) {
 		tape := runWithGenTape(r, -1, func() { _, _ = envelope.NewJSONEnvelope(json.RawMessage(pl)) })
 		e.emit("new", "env.new "+hx(pl)+" "+tape)
 	}
+	// raw payloads (json.RawMessage / custom Marshaler) that are NOT valid UTF-8: every class of ill-formed sequence
+	// of Go's unicode/utf8 table inside a JSON string, with and without backslashes next to it (D14)
+	{
+		bad := [][]byte{{0xff}, {0xfe, 0xff}, {0x80}, {0xbf}, {0xc0, 0x80}, {0xc1, 0xbf}, {0xc2}, {0xc2, 0x41}, {0xe0, 0x80, 0x80}, {0xe0, 0x9f, 0xbf},
+			{0xe0, 0xa0}, {0xed, 0xa0, 0x80}, {0xed, 0xbf, 0xbf}, {0xef, 0xbf}, {0xf0, 0x80, 0x80, 0x80}, {0xf0, 0x8f, 0xbf, 0xbf}, {0xf0, 0x90, 0x80},
+			{0xf4, 0x90, 0x80, 0x80}, {0xf5, 0x80, 0x80, 0x80}, {0xf8, 0x88, 0x80, 0x80, 0x80}, {0xe9}, {0xe2, 0x82}, {0xf0, 0x9f, 0x98}}
+		good := [][]byte{{0xc2, 0x80}, {0xdf, 0xbf}, {0xe0, 0xa0, 0x80}, {0xed, 0x9f, 0xbf}, {0xee, 0x80, 0x80}, {0xef, 0xbf, 0xbd}, {0xf0, 0x90, 0x80, 0x80}, {0xf4, 0x8f, 0xbf, 0xbf}}
+		for i, seq := range append(bad, good...) {
+			for _, ctx := range []string{"{\"a\":\"x%sy\"}", "\"%s\"", "{\"p\":\"C:\\\\t%s\\\\\",\"q\":[1,\"%s%s\"]}"} {
+				pl := []byte(strings.Replace(ctx, "%s", string(seq), -1))
+				tape := runWithGenTape(r, -1, func() { _, _ = envelope.NewJSONEnvelope(json.RawMessage(pl)) })
+				cl := "new.raw-illformed"
+				if i >= len(bad) {
+					cl = "new.raw-wellformed-boundary"
+				}
+				e.emit(cl, "env.new "+hx(pl)+" "+tape)
+			}
+		}
+		for i := 0; i < n/4; i++ { // random bytes >= 0x80 sprinkled into a marshalled value
+			pl, err := json.Marshal(randJSON(r, 0))
+			if err != nil || len(pl) < 3 {
+				continue
+			}
+			x := append([]byte{}, pl...)
+			for j := 0; j < 1+r.intn(3); j++ {
+				pos := r.intn(len(x))
+				if x[pos] >= 0x80 || (x[pos] >= 'a' && x[pos] <= 'z') { // inside strings (keys or values) only
+					x[pos] = byte(0x80 + r.intn(128))
+				}
+			}
+			if !json.Valid(x) { // a keyword or an escape was hit: not marshalable, outside the property
+				continue
+			}
+			tape := runWithGenTape(r, -1, func() { _, _ = envelope.NewJSONEnvelope(json.RawMessage(x)) })
+			e.emit("new.raw-random-high-bytes", "env.new "+hx(x)+" "+tape)
+		}
+	}
 	// the D10 witness
 	{
 		pl, _ := json.Marshal(map[string]string{"a": `he said "hi"`})
